@@ -115,6 +115,12 @@ CHECKS = {
         "text": "Corner populations in six modes (all incomes zero; very large income and wealth; negative rental income; pensioners aged 67-100; couples with 6-10 children; mixed) over the generator's household types are simulated with every node requested and rounding on at several change dates >= 2015; TLC checks every numeric column for finiteness, every default target for non-negativity and 6-8 cap relations between columns and parameters of the date (benefit after priority <= before, paid <= entitlement, contribution <= rate x ceiling, Elterngeld <= maximum + bonuses, Kindergeld <= highest rate x claims).",
         "note": "Per-row numeric predicates on sampled corner inputs: exploration level. The cap table is hand-written and partial; 24 populations quick / 360 thorough.",
     },
+    "C08": {
+        "level": "model_checking",
+        "technique": "Derive.tla/Complete.tla: TLC derives the dependency graph of the default targets for the rules active on each change-day class and checks acyclicity, documented leaves and rounding specifications (Trace_Complete); default targets computed on branch-diverse populations at every class",
+        "text": "For every day on which anything changes from 2015-01-01 on (parameter entry, rounding entry, rule start, rule end + 1) and its eve, TLC derives from the rules active that day, the built-in aggregation specs, the documented inputs and the default targets the function table and its pruned dependency graph and checks that no target is missing, the graph is acyclic, every leaf is a documented input variable and every rounded rule in it has a rounding specification that day. At each such day the default targets are computed on branch-diverse populations (all household types, table-boundary values of dynamic look-ups, a household of ten, extreme pension cohorts); any exception is reported with the rule that raised.",
+        "note": "One day per interval between change days represents the interval (C07); parameter paths are exercised dynamically rather than enumerated statically; quick tier covers a seeded 40 of the ~130 days plus fixed ones.",
+    },
 }
 
 NOT_APPLICABLE = {}
